@@ -464,8 +464,9 @@ def _callee_name(call, cls: str):
     f = call.func
     if isinstance(f, ast.Attribute) and isinstance(f.value, ast.Name) and f.value.id in ("self", "cls", cls) and cls:
         return f.attr, f.value.id
-    if isinstance(f, ast.Name) and not cls:
-        return f.id, None
+    if isinstance(f, ast.Name):
+        # a module-level function: called by its bare name from module scope and from the methods of the module's classes
+        return ("mod:" + f.id if cls else f.id), None
     return None, None
 
 
@@ -596,7 +597,7 @@ def _tailify(helper, retname: str):
 
 def _expand(helper, call, caller, cls, target_names: set, mode: str, tuple_targets=None):
     """Statements replacing the call; mode in {'expr', 'value', 'tail'}.  Returns (stmts, result expr) or None."""
-    static = any(ast.unparse(d) in ("staticmethod",) for d in helper.decorator_list)
+    static = any(ast.unparse(d) in ("staticmethod",) for d in helper.decorator_list) or getattr(helper, "_module_level", False)
     bound = _bind(helper, call, bool(cls), static)
     if bound is None:
         return None
@@ -688,6 +689,22 @@ def _expand(helper, call, caller, cls, target_names: set, mode: str, tuple_targe
     new = [rn.visit(copy.deepcopy(s)) for s in body]
     if result is not None:
         result = rn.visit(copy.deepcopy(result))
+    def _drop_self_assign(block):
+        out = []
+        for st_ in block:
+            if isinstance(st_, ast.Assign) and len(st_.targets) == 1 and isinstance(st_.targets[0], ast.Name) and isinstance(st_.value, ast.Name) \
+                    and st_.targets[0].id == st_.value.id:
+                continue  # `x = x`
+            for fld_ in ("body", "orelse", "finalbody"):
+                sub_ = getattr(st_, fld_, None)
+                if isinstance(sub_, list) and sub_ and isinstance(sub_[0], ast.stmt):
+                    kept = _drop_self_assign(sub_)
+                    setattr(st_, fld_, kept if kept or fld_ != "body" else [ast.copy_location(ast.Pass(), st_)])
+            for hd_ in getattr(st_, "handlers", []) or []:
+                hd_.body = _drop_self_assign(hd_.body) or [ast.copy_location(ast.Pass(), hd_)]
+            out.append(st_)
+        return out
+    new = _drop_self_assign(new)
     for s in pre + new:
         for n in ast.walk(s):
             n._inlined_from = helper.name  # type: ignore[attr-defined]
@@ -900,7 +917,7 @@ def inline_expression_helpers(helpers, fn, cls, rep: Report) -> bool:
             e = _expr_helper(h)
             if e is None:
                 return node
-            static = any(ast.unparse(d) == "staticmethod" for d in h.decorator_list)
+            static = any(ast.unparse(d) == "staticmethod" for d in h.decorator_list) or getattr(h, "_module_level", False)
             bound = _bind(h, node, bool(cls), static)
             if bound is None:
                 return node
@@ -942,6 +959,33 @@ def inline_helpers(modules, known, rep: Report):
             kf = known["functions"].get(f"{rel}::{sc}")
             if kf is None:
                 continue
+            # new read-only properties that are a single `return <expr over self>`: `self.<name>` is that expression
+            if sc:
+                props = {}
+                for n in list(body):
+                    if isinstance(n, ast.FunctionDef) and n.name not in kf and [ast.unparse(d) for d in n.decorator_list] == ["property"] \
+                            and len(n.args.args) == 1 and not any(isinstance(m, FUNC) and m.name == n.name and m is not n for m in body):
+                        e = _expr_helper(n)
+                        if e is not None and all(not isinstance(x, ast.Name) or x.id == n.args.args[0].arg or x.id[:1].isupper() or x.id in ("str", "int", "len", "bool")
+                                                 for x in ast.walk(e)):
+                            props[n.name] = (n, e)
+                if props:
+                    class P(ast.NodeTransformer):
+                        def visit_Attribute(self, node):
+                            self.generic_visit(node)
+                            if isinstance(node.ctx, ast.Load) and isinstance(node.value, ast.Name) and node.value.id == "self" and node.attr in props:
+                                pn, pe = props[node.attr]
+                                new = _Rename({}, {pn.args.args[0].arg: ast.Name("self", ast.Load())}).visit(copy.deepcopy(pe))
+                                rep.inlined.append((f"{sc}.{node.attr} (property)", sc, getattr(node, "lineno", 0)))
+                                return ast.copy_location(new, node)
+                            return node
+                    for m in body:
+                        if isinstance(m, FUNC) and m.name not in props:
+                            m.body = [P().visit(st) for st in m.body]
+                            ast.fix_missing_locations(m)
+                    for name, (pn, pe) in props.items():
+                        if not any(isinstance(x, ast.Attribute) and x.attr == name for mm in modules.values() for x in ast.walk(mm.tree)):
+                            body.remove(pn)
             for _round in range(3):
                 present = {n.name: n for n in body if isinstance(n, FUNC)}
                 helpers = {}
@@ -956,6 +1000,14 @@ def inline_helpers(modules, known, rep: Report):
                     if _calls_to(fn, name, sc):
                         continue  # recursive
                     helpers[name] = fn
+                if sc:
+                    # new module-level functions are helpers of the module's class methods too
+                    mkf = known["functions"].get(f"{rel}::") or {}
+                    for n in mod.tree.body:
+                        if isinstance(n, FUNC) and n.name not in mkf and not n.decorator_list and not _calls_to(n, n.name, "") \
+                                and not any(isinstance(x, FUNC + (ast.Lambda, ast.Yield, ast.YieldFrom, ast.Global, ast.Nonlocal, ast.ClassDef)) and x is not n for x in ast.walk(n)):
+                            n._module_level = True  # type: ignore[attr-defined]
+                            helpers["mod:" + n.name] = n
                 if not helpers:
                     break
                 failed = set()
@@ -966,6 +1018,11 @@ def inline_helpers(modules, known, rep: Report):
                     fn.body = nb
                     any_change |= ch
                 for name, fn in helpers.items():
+                    if name.startswith("mod:"):
+                        left = sum(_calls_to(m.tree, name[4:], "") for m in modules.values())
+                        if left == 0 and fn in mod.tree.body:
+                            mod.tree.body.remove(fn)
+                        continue
                     left = sum(_calls_to(m.tree, name, sc) for m in modules.values())
                     if left == 0 and fn in body:
                         body.remove(fn)
@@ -1002,6 +1059,7 @@ def normalize(modules) -> Report:
     n2.unroll_constant_loops(modules, known, rep)
     n2.expand_table_dispatch(modules, known, rep)
     n2.propagate_fresh_locals(modules, known, rep)
+    n2.thread_constant_flags(modules, known, rep)
     seen = set()
     rep.kept = [k for k in rep.kept if not (k in seen or seen.add(k))]
     return rep
